@@ -50,3 +50,14 @@ package annotation
 //@    (= (. (as ca *InterfaceResultFromImplementation) TriggerIfNonNil Ann) (iface *RetAnnotationKey (call RetKeyFromRetNum affiliation.InterfaceMethod retNum)))
 //@    (= (. (as ca *InterfaceResultFromImplementation) AffiliationPair) affiliation)))
 //@ ensures uncontrolled (= result.Controller nil)
+
+//@ -- C10: only explicitly set annotation values are replayed, each with its own key, deep flag and value, and
+//@ -- nothing else is handed to the callback
+//@ func (*ObservedMap).Range$1
+//@ prop C10
+//@ modifies *
+//@ ghost dyncalls-pure
+//@ ensures one-call-per-explicit-value (= (dyn count) (+ (ite val.IsNilableSet 1 0) (ite val.IsDeepNilableSet 1 0)))
+//@ ensures shallow-value-replayed (=> val.IsNilableSet (and (= (dyn 0 arg 0) key) (= (dyn 0 arg 1) false) (= (dyn 0 arg 2) val.IsNilable)))
+//@ ensures deep-value-replayed-after-shallow (=> (and val.IsNilableSet val.IsDeepNilableSet) (and (= (dyn 1 arg 0) key) (= (dyn 1 arg 1) true) (= (dyn 1 arg 2) val.IsDeepNilable)))
+//@ ensures deep-value-replayed-alone (=> (and (not val.IsNilableSet) val.IsDeepNilableSet) (and (= (dyn 0 arg 0) key) (= (dyn 0 arg 1) true) (= (dyn 0 arg 2) val.IsDeepNilable)))
